@@ -8,6 +8,7 @@ from harness import refs
 from mirsym.interp import Panic, Inconclusive
 from mirsym.values import *
 from native import oracle
+import checks.c13 as c13mod      # registers the shared replay predicates (c13_differs)
 
 UREM = z3.Function('urem_uf', z3.BitVecSort(64), z3.BitVecSort(64), z3.BitVecSort(64))
 
